@@ -32,8 +32,16 @@ func sqlTypeVia(typeName string, typID int) string {
 // the float values the generators use; their fmt and encoding/json renderings are library behaviour,
 // tabulated here by executing them
 var floats64 = []float64{0, math.Copysign(0, -1), 1, -1, -1.5, 3.14, 0.1, 100, 1e6, 1234567, 123456789, 1e20, 1e21, -1e21, 1e-5, 1e-6, 1e-7, -2.5e-10,
-	5e-324, math.MaxFloat64, -math.MaxFloat64, 9007199254740993, math.NaN(), math.Float64frombits(0xfff8000000000001), math.Inf(1), math.Inf(-1)}
-var floats32 = []float32{0, float32(math.Copysign(0, -1)), 1, -1.5, 0.1, 16777216, 1e21, 1e-7, math.MaxFloat32, float32(math.NaN()), float32(math.Inf(1)), float32(math.Inf(-1))}
+	5e-324, math.MaxFloat64, -math.MaxFloat64, 9007199254740993, math.NaN(), math.Float64frombits(0xfff8000000000001), math.Inf(1), math.Inf(-1),
+	// more of %v's shapes: the %e / %f switch at exponents -5 and 21, shortest round-trip digits, subnormals, powers of two
+	9.999999999999999e20, 1.0000000000000001e21, 0.0001, 0.00009999999999999999, 123456.789, -0.000001234, 2.5, 1e22, 1e23, 8.41e21, 4.35e-4,
+	0.3, 0.1 + 0.2, 1.0 / 3.0, 2.0 / 3.0, 1e15, 1e16, 1e17, 123456789012345680, 9007199254740992, 9007199254740991, 4503599627370496.5,
+	2.2250738585072014e-308, 2.225073858507201e-308, 1e-320, 1.7976931348623155e308, 6.02214076e23, -6.62607015e-34, 299792458, 3.141592653589793,
+	2.718281828459045, 65536, 4294967296, 18446744073709551616, 1e100, 1e-100, -1e-5, 12345.678e10, 0.5, 0.25, 1e-4, 1e-5 * 9.5,
+	math.Float64frombits(0x7ff0000000000001), math.Float64frombits(0x7fffffffffffffff), math.Float64frombits(0x0010000000000000), math.Float64frombits(0x000fffffffffffff)}
+var floats32 = []float32{0, float32(math.Copysign(0, -1)), 1, -1.5, 0.1, 16777216, 1e21, 1e-7, math.MaxFloat32, float32(math.NaN()), float32(math.Inf(1)), float32(math.Inf(-1)),
+	3.14, 0.0001, 0.00001, 9.9999994e20, 1e20, 16777217, 1.17549435e-38, 1e-45, 123456.79, -2.5e-10, 0.3, 1.0 / 3.0, 65536, 3.4028233e38, 1e10,
+	math.Float32frombits(0xffc00001), math.Float32frombits(0x7f800001)}
 
 func leanStr(s string) string {
 	var sb strings.Builder
